@@ -1,6 +1,8 @@
 //! C04: emitted DirectX HLSL is accepted by the front end and is a fixpoint.
 //!
 //! request : C04.fix \t <gen:<seed> | decl:<seed> | lit:<seed> | disk:<root>|<entry> | text:<hex of source>>
+//!           `dfn:<seed>` = the declaration-form stream (c04/declforms.rs): prototype + definition with defaults on either side,
+//!           forward-declared functions called before their definition, methods, rarely used exporter features
 //!           `lit:<seed>` = the literal stream: a program whose initialisers, arguments, array sizes and operands are
 //!           numeric literals of every suffix (none, `f`, `h`, `L`, `u`, hex) — long decimal constants (20–30 significant
 //!           digits), values whose shortest decimal has 15–17 digits, exponent forms, negative zero, subnormal / huge
@@ -9,6 +11,7 @@
 //! observe : first-generation digest, or `reject:<stage>` when the source itself is not accepted
 //! oracle  : compile(P, dx, no-pipeline) = G1; compile(G1.text, dx, no-pipeline) must succeed and be
 //!           byte-identical to G1, with every resource on the same binding slot (group, name, location, count).
+mod declforms;
 mod names;
 mod reelab;
 mod tmpl;
@@ -248,12 +251,34 @@ fn first_generation(id: &str) -> Option<CompileOutcome> {
     } else if let Some(seed) = id.strip_prefix("tpl:") {
         let seed: u64 = seed.parse().ok()?;
         Some(compile_src(&tmpl::source(seed), Tgt::Dx, Mode::NoPipeline))
+    } else if let Some(seed) = id.strip_prefix("dfn:") {
+        let seed: u64 = seed.parse().ok()?;
+        Some(compile_src(&declforms::source(seed), Tgt::Dx, Mode::NoPipeline))
     } else if let Some(rest) = id.strip_prefix("disk:") {
         let (root, entry) = rest.split_once('|')?;
         Some(compile_disk(root, entry, Tgt::Dx, Mode::NoPipeline))
     } else if let Some(h) = id.strip_prefix("text:") {
         let bytes = unhex(h)?;
         Some(compile_src(&String::from_utf8_lossy(&bytes), Tgt::Dx, Mode::NoPipeline))
+    } else {
+        None
+    }
+}
+
+/// the source text of a request that carries or regenerates one (not `disk:`)
+fn source_text(id: &str) -> Option<String> {
+    if let Some(seed) = id.strip_prefix("decl:") {
+        Some(declgen::gen_source(&mut Rng::new(seed.parse().ok()?)))
+    } else if let Some(seed) = id.strip_prefix("gen:") {
+        Some(render(&gen_program(&mut Rng::new(seed.parse().ok()?), &GenOpts::default()), &|_| true))
+    } else if let Some(seed) = id.strip_prefix("lit:") {
+        Some(literal_program(&mut Rng::new(seed.parse().ok()?)))
+    } else if let Some(seed) = id.strip_prefix("tpl:") {
+        Some(tmpl::source(seed.parse().ok()?))
+    } else if let Some(seed) = id.strip_prefix("dfn:") {
+        Some(declforms::source(seed.parse().ok()?))
+    } else if let Some(h) = id.strip_prefix("text:") {
+        Some(String::from_utf8_lossy(&unhex(h)?).to_string())
     } else {
         None
     }
@@ -316,7 +341,12 @@ fn run_one(id: &str, out: &mut Out, hist: &mut Hist) {
                 }
                 CompileOutcome::Err(e) => {
                     hist.add("output-rejected");
-                    format!("FAIL:emitted HLSL is rejected: {}", one_line(&e.chars().take(200).collect::<String>()))
+                    // a failure caused by the pairing of a prototype with a definition is named on the source text alone
+                    let tag = source_text(id)
+                        .and_then(|src| declforms::classify(&src, &format!("emitted HLSL is rejected: {}", e)))
+                        .map(|t| format!(" {}", t))
+                        .unwrap_or_default();
+                    format!("FAIL:emitted HLSL is rejected: {}{}", one_line(&e.chars().take(200).collect::<String>()), tag)
                 }
                 CompileOutcome::Panic(p) => {
                     hist.add("panic-second-generation");
@@ -338,6 +368,8 @@ fn dump(id: &str) {
         literal_program(&mut Rng::new(seed.parse().unwrap()))
     } else if let Some(seed) = id.strip_prefix("tpl:") {
         tmpl::source(seed.parse().unwrap())
+    } else if let Some(seed) = id.strip_prefix("dfn:") {
+        declforms::source(seed.parse().unwrap())
     } else if let Some(h) = id.strip_prefix("text:") {
         String::from_utf8_lossy(&unhex(h).unwrap_or_default()).to_string()
     } else {
@@ -373,6 +405,8 @@ pub fn run(args: &Args, out: &mut Out) {
             literal_program(&mut Rng::new(seed.parse().unwrap_or(0)))
         } else if let Some(seed) = id.strip_prefix("tpl:") {
             tmpl::source(seed.parse().unwrap_or(0))
+        } else if let Some(seed) = id.strip_prefix("dfn:") {
+            declforms::source(seed.parse().unwrap_or(0))
         } else if let Some(h) = id.strip_prefix("text:") {
             String::from_utf8_lossy(&unhex(h).unwrap_or_default()).to_string()
         } else {
@@ -447,6 +481,16 @@ pub fn run(args: &Args, out: &mut Out) {
         run_one(&format!("tpl:{}", seed), out, &mut hist);
     }
     out.stat(&format!("{{\"stream\":\"templates\",\"programs\":{},\"hist\":{}}}", ntpl, tpl_hist.json()));
+    // the declaration-form stream: prototypes / definitions / defaults on either side, forward calls, methods, and the
+    // exporter features no other stream writes
+    let ndfn = n / 2;
+    let mut dfn_hist = Hist::default();
+    for _ in 0..ndfn {
+        let seed = rng.next() >> 16;
+        let _ = declforms::generate(&mut Rng::new(seed), &mut dfn_hist);
+        run_one(&format!("dfn:{}", seed), out, &mut hist);
+    }
+    out.stat(&format!("{{\"stream\":\"declaration-forms\",\"programs\":{},\"hist\":{}}}", ndfn, dfn_hist.json()));
     let corpus = repo_corpus(&repo);
     let take = if args.thorough() { corpus.len() } else { corpus.len().min(31) };
     let step = (corpus.len() / take.max(1)).max(1);
